@@ -197,7 +197,7 @@ def work(k, n, jobs):
                         detected.append(c)
                         break  # one detecting check is enough
                     elif r.returncode == 2:
-                        rec['status'] = 'harness-build-failed'
+                        rec['status'] = 'does-not-compile'  # code behind the sync/async-tokio features, which only the harness build enables
                         rec['detail'] = r.stdout[-300:]
                         break
                     else:
